@@ -65,7 +65,8 @@ def materialise(layout, pool, sims, work, mult=1):
         kind = c['kind']
         # repeated-runs layout: every container sits in its own directory and
         # carries the same file name (run_0/results.zip, run_1/results.zip, ...)
-        rdir = os.path.join(work, f'run_{ci}')
+        # (every fourth container sits in a hidden directory: .cache_<ci>)
+        rdir = os.path.join(work, f'run_{ci}' if ci % 4 != 3 else f'.run_{ci}')
         os.makedirs(rdir, exist_ok=True)
         base = os.path.join(rdir, 'results')
         if kind == 'json':
@@ -177,6 +178,11 @@ def drive(item):
     layout, pool, idx = item[:3]
     mult = item[3] if len(item) > 3 else 1
     work = common.scratch_dir(f'c15-{idx}')
+    if idx % 5 == 2:
+        # a data directory whose name holds characters that mean something to glob
+        # (batch[2], run*1): it is a directory like any other
+        work = os.path.join(work, ('batch[2]', 'run*1', 'what?')[(idx // 5) % 3])
+        os.makedirs(work, exist_ok=True)
     rec = {'pool': pool, 'layout': layout, 'observed': {}, 'n_rows': 0, 'raised': '', 'mult': mult}
     try:
         sims = key_sims()
